@@ -137,6 +137,10 @@ async def context_scenario(params: dict, path: str, *, real_time: bool = False) 
     if final_snapshot is None:
         final_snapshot = typed(snap(gateway.nodes))
     await asyncio.sleep(0)
+    if params.get("settle_after_exit"):
+        # file operations that were in flight when their coroutine was cancelled still take effect (a worker thread cannot be
+        # recalled): give every straggler the time to land before the file is judged
+        await asyncio.sleep(params["settle_after_exit"])
     leftovers = [t for t in asyncio.all_tasks() if t not in before_tasks and t is not asyncio.current_task() and not t.done()]
     result.update(entered=entered, observed=observed, leftovers=[repr(t)[:160] for t in leftovers],
                   final_snapshot=final_snapshot, transport=transport, gateway=gateway)
@@ -885,12 +889,14 @@ def traffic_cadence_case(ctx, workdir: str, gap: float) -> None:
                 ctx.violation(key, what, case)
 
 
-def slow_disk_case(ctx, workdir: str, delay: float, k: int, mode: str) -> None:
+def slow_disk_case(ctx, workdir: str, delay, k: int, mode: str) -> None:
     """Every file operation takes `delay` virtual seconds (a slow or sleeping disk, a network share): entry, one change,
     exit after k loop iterations.  Leaving the context still writes the final registry and raises nothing of its own."""
     path = os.path.join(workdir, "slowdisk.json")
     prepare_file(path, "present")
-    params = {"transport": "scripted", "mode": mode, "file": "present", "k": k, "change": "late", "executor_delay": delay}
+    longest = max(delay) if isinstance(delay, (list, tuple)) else delay
+    params = {"transport": "scripted", "mode": mode, "file": "present", "k": k, "change": "late", "executor_delay": delay,
+              "settle_after_exit": 3 * longest + 5}
     case = {"engine": "vloop", **params}
     result, loop = run_virtual(lambda: context_scenario(params, path), executor_delay=delay)
     ctx.case(("slow-disk", delay, k, mode), sample=case)
@@ -1732,6 +1738,18 @@ def run(ctx) -> None:
                 for k in (0, 3, 40):
                     if ctx.mine(i + k):
                         slow_disk_case(ctx, workdir, delay, k, ("normal", "body-raises")[(i + k) % 2])
+            # worker threads that do NOT finish in submission order: the n-th file operation since entry lags (its thread
+            # starts late, its disk access hangs) while the others take one second - and the context is left meanwhile.
+            # Call #1 is the load's open, #2 its read, #3 its close, #4-#6 the saver's open / write / close, then the final save's.
+            index = 0
+            for lagging in range(1, 10):
+                for lag in (2.5, 7, 40):
+                    for k in (0, 1, 2, 4, 8, 30):
+                        index += 1
+                        if ctx.mine(index):
+                            pattern = [1.0] * 12
+                            pattern[lagging - 1] = lag
+                            slow_disk_case(ctx, workdir, pattern, k, ("normal", "body-raises")[index % 2])
             hours = ctx.pick(10, 100)
             if ctx.shard_index < 4:
                 cadence_case(ctx, workdir, hours, ctx.seed * 100 + ctx.shard_index)
